@@ -285,6 +285,24 @@ Proof.
   apply Qle_Rle in H2. lra.
 Qed.
 
+(* the same through a reference point x0: excess of x over EVERY in-bound x' <= tangent at x towards x0 + gap at x0 *)
+Theorem poisson_ref_sound A' base' n lb ub w b x x0 x' :
+  rect n A' -> length base' = length A' -> length w = length A' -> length b = length A' ->
+  length x = n -> length x0 = n -> length x' = n ->
+  Forall (fun a => (0 <= a)%Q) b -> Forall (fun a => (0 <= a)%Q) w ->
+  Forall (fun a => (0 < a)%Q) (predict A' base' x) -> Forall (fun a => (0 < a)%Q) (predict A' base' x0) ->
+  Forall (fun a => (0 < a)%Q) (predict A' base' x') ->
+  in_box x' lb ub ->
+  nllR w b (predict A' base' x) <= nllR w b (predict A' base' x') + Q2R (pois_excess A' base' n lb ub w b x x0).
+Proof.
+  intros HA Hbase Hw Hb Hx Hx0 Hx' Hbn Hwn Hp Hp0 Hp' Hbox.
+  pose proof (len_predict A' base' x Hbase) as HP. pose proof (len_predict A' base' x0 Hbase) as HP0.
+  pose proof (nll_tangent w b (predict A' base' x) (predict A' base' x0)
+                ltac:(lia) ltac:(lia) ltac:(lia) Hwn Hbn Hp Hp0) as H1.
+  pose proof (poisson_gap_sound A' base' n lb ub w b x0 x' HA Hbase Hw Hb Hx0 Hx' Hbn Hwn Hp0 Hp' Hbox) as H2.
+  unfold pois_excess. rewrite Q2R_plus. lra.
+Qed.
+
 (* the likelihood is minimised exactly at p = b (per receptor): in-gamut targets are reproduced *)
 Theorem poisson_min_at_target (b p : R) : 0 < b -> 0 < p -> b - b * ln b <= p - b * ln p /\ (b - b * ln b = p - b * ln p -> p = b).
 Proof.
